@@ -80,6 +80,7 @@ def run_families(c, families, binp, nontrivial_ops):
             os.remove(f2)
             if not [x for x in again['violations'] if x['signature'] == v['signature']]:
                 c.unreproduced('violation %s (family %s) not reproduced on a second run' % (v['signature'], fam['name']))
+                continue
             c.report(v['signature'] + ':' + z['tz'], v['detail'],
                      {'behaviour': b, 'harness': 'stor/segments', 'cfg': hcfg, 'tz': z['tz'], 'family': fam['name']})
         tot['behaviours'] += res['behaviours']
